@@ -1,24 +1,48 @@
 import BoltonsVerif.Common
 import BoltonsVerif.C05.Model
+import BoltonsVerif.C05.Accept
 /-
-C05 line protocol.  One line = one whole case (initial state, configuration, body, plan):
+C05 line protocol.  One line = one whole case.
 
-  <flags> <perms> <umask> <dest> <part> <raises> <writes> <plan>
+1. THE TIE (acceptance): the trace OBSERVED on the real `atomic_save` (first save + immediate retry)
+
+  <flags> <perms> <umask> <dest> <part> <raises> <content> <ok1> <trace1> <ok2> <trace2>
     flags   four digits 0/1: overwrite, overwrite_part, rm_part_on_exc, text_mode
     perms   `-` or decimal permission bits
     umask   decimal
     dest    `-` (absent) or `<mode>:<hex content>` (`<mode>:-` = empty file)
     part    idem
-    raises  0/1: the with-block ends by raising
+    raises  0/1: the with-block of the first save ended by raising
+    content hex of all bytes the block writes (`-` = none)
+    ok1/2   0/1: the caller saw no exception from the first save / the retry
+    trace   `-` or `,`-separated observations, one per counted call:
+              A            another process creates the destination (just before the next call)
+              F<l><i><u>   the call reported an error (three digits 0/1: listed step, injected, unlink of the part file);
+                           a failure that was NOT injected may carry `:<event>` = what the call would have been - the
+                           abstract file system must refuse that event too (`nat=`)
+              X<l>         a file.close() that reported an error but closed
+              n            a successful call without effect (probe, fdopen, unrelated path, close of a closed object)
+              o<excl><samedir>:<mode>   part file created        c<mode>   chmod / fchmod of the part file
+              w<hex>  f  s  x  xf       write, flush, fsync, close of the file object, os.close of the descriptor
+              R  L  U                   rename-or-replace part->dest, link part->dest, unlink of the part file
+              T  W<hex>  D  ?           truncation of / write to / unlink of the destination, unclassified mutating call
+
+  Output: `<first> | <retry>`, each half `acc=<code> exec=<ok|stuck@k> nat=<ok|bad@k> dest=<-|mode:hex> part=<-|mode:hex>`
+    code 0 = `C05.Accept` holds; 9@k = the automaton refuses observation k; 1-4 = end condition 1-4 fails
+    exec  = `C05.replay` of the trace on the abstract file system (the retry starts from the first save's result)
+    nat   = every failure the real file system produced on its own is a failure of the abstract one as well
+
+2. THE REFERENCE TRANSLITERATION (statistics only, never an alarm): `REF ` followed by
+
+  <flags> <perms> <umask> <dest> <part> <raises> <writes> <plan>
     writes  `-` or the `,`-separated calls of the with-block on the file object: a hex string = one
             write call, `F` = flush(), `C` = close()
     plan    `-` or `,`-separated `<call index>:<errno>` (that call fails; numbers from 1000 on name
             exception classes that are not errno-carrying OSErrors) / `<call index>:A`
             (the destination appears just before that call)
 
-Output: `<first save> | <retry>` where the retry is the same save run again on the resulting
-file system with no fault and a body that only writes and does not raise; each half is
-  out=<ok|body|os:<errno>> calls=<n> dest=<-|mode:hex> part=<-|mode:hex>
+  Output: `<first save> | <retry>` of `runScript`, each half
+  out=<ok|body|os:<errno>> calls=<n> dest=<-|mode:hex> part=<-|mode:hex> obs=<what a recorder of its calls observes, in the tokens of protocol 1>
 -/
 namespace C05.Driver
 open BV C04 C05
@@ -85,11 +109,40 @@ def showOut : Outcome → String
   | .bodyExc => "body"
   | .osErr e => s!"os:{e}"
 
-def showRes (r : Outcome × M) : String :=
-  s!"out={showOut r.1} calls={r.2.n} dest={showFile r.2.fs r.2.fs.dir.dest} part={showFile r.2.fs r.2.fs.dir.part}"
+def showEv : Ev → String
+  | .noop => "n"
+  | .openPart ex sd md => s!"o{if ex then 1 else 0}{if sd then 1 else 0}:{md}"
+  | .chmodPart md => s!"c{md}"
+  | .write d _ => "w" ++ (if d.isEmpty then "" else hexOfBytes d)
+  | .flush => "f"
+  | .fsync => "s"
+  | .close => "x"
+  | .closeFd => "xf"
+  | .renamePartDest => "R"
+  | .linkPartDest => "L"
+  | .unlinkPart => "U"
+  | .truncDest => "T"
+  | .writeDest d => "W" ++ (if d.isEmpty then "" else hexOfBytes d)
+  | .unlinkDest => "D"
+  | .unknown => "?"
 
-def handle (line : String) : String :=
-  match words line with
+def b01 (b : Bool) : String := if b then "1" else "0"
+
+def showObs : Obs → String
+  | .ok ev => showEv ev
+  | .fail l i u => s!"F{b01 l}{b01 i}{b01 u}"
+  | .failClosed l => s!"X{b01 l}"
+  | .appear => "A"
+
+/-- what a recorder of the transliteration's calls observes (same tokens as the observed-trace protocol) -/
+def showObsList (t : List Obs) : String :=
+  if t.isEmpty then "-" else ",".intercalate (t.map showObs)
+
+def showRes (r : Outcome × M) : String :=
+  s!"out={showOut r.1} calls={r.2.n} dest={showFile r.2.fs r.2.fs.dir.dest} part={showFile r.2.fs r.2.fs.dir.part} obs={showObsList r.2.obs}"
+
+def handleRef (ws : List String) : String :=
+  match ws with
   | [flags, perms, umask, dest, part, raises, writes, plan] =>
     match flags.toList.map bit?, (if perms = "-" then some none else perms.toNat?.map some),
           umask.toNat?, parseFile? dest, parseFile? part, raises.toList.map bit?,
@@ -104,5 +157,111 @@ def handle (line : String) : String :=
       s!"{showRes r} | {showRes r2}"
     | _, _, _, _, _, _, _, _ => "bad-op"
   | _ => "bad-op"
+
+/-! ### the acceptance tie -/
+
+def parseObs? (w : String) : Option Obs :=
+  match w.toList with
+  | ['A'] => some .appear
+  | ['F', l, i, u] => match bit? l, bit? i, bit? u with
+    | some l, some i, some u => some (.fail l i u)
+    | _, _, _ => none
+  | ['X', l] => (bit? l).map Obs.failClosed
+  | ['n'] => some (.ok .noop)
+  | ['f'] => some (.ok .flush)
+  | ['s'] => some (.ok .fsync)
+  | ['x'] => some (.ok .close)
+  | ['x', 'f'] => some (.ok .closeFd)
+  | ['R'] => some (.ok .renamePartDest)
+  | ['L'] => some (.ok .linkPartDest)
+  | ['U'] => some (.ok .unlinkPart)
+  | ['T'] => some (.ok .truncDest)
+  | ['D'] => some (.ok .unlinkDest)
+  | ['?'] => some (.ok .unknown)
+  | 'o' :: ex :: sd :: ':' :: md => match bit? ex, bit? sd, (String.ofList md).toNat? with
+    | some ex, some sd, some md => some (.ok (.openPart ex sd md))
+    | _, _, _ => none
+  | 'c' :: md => (String.ofList md).toNat?.map (fun md => Obs.ok (.chmodPart md))
+  | 'w' :: hx => (bytesOfHex? (if hx.isEmpty then "-" else String.ofList hx)).map (fun b => Obs.ok (.write b 0))
+  | 'W' :: hx => (bytesOfHex? (if hx.isEmpty then "-" else String.ofList hx)).map (fun b => Obs.ok (.writeDest b))
+  | _ => none
+
+/-- an observation, and for a failure that was not injected the event the call would have been -/
+def parseObsX? (w : String) : Option (Obs × Option Ev) :=
+  match splitOnChar w ':' with
+  | [f, e] =>
+    if f.startsWith "F" then
+      match parseObs? f, parseObs? e with
+      | some o, some (.ok ev) => some (o, some ev)
+      | _, _ => none
+    else (parseObs? w).map (fun o => (o, none))
+  | [f, e1, e2] =>      -- the event token itself contains a colon (o11:420)
+    if f.startsWith "F" then
+      match parseObs? f, parseObs? (e1 ++ ":" ++ e2) with
+      | some o, some (.ok ev) => some (o, some ev)
+      | _, _ => none
+    else none
+  | _ => (parseObs? w).map (fun o => (o, none))
+
+def parseTrace? (s : String) : Option (List (Obs × Option Ev)) :=
+  if s = "-" then some [] else
+  (splitOnChar s ',').foldr (fun w acc =>
+    match acc, parseObsX? w with
+    | some l, some o => some (o :: l)
+    | _, _ => none) (some [])
+
+/-- index of the first natural failure that the abstract file system would have let through -/
+def natCheck : M → List (Obs × Option Ev) → Nat → Option Nat
+  | _, [], _ => none
+  | m, (o, x) :: t, k =>
+    let bad := match x with
+      | some ev => (match m.fs.step ev with | .ok _ => true | .error _ => false)
+      | none => false
+    if bad then some k else
+    match replayStep m o with
+    | some m' => natCheck m' t (k + 1)
+    | none => none
+
+def showAcc (cfg : Cfg) (raises ok : Bool) (content : Bytes) (fs : FS) (t : List Obs) : String :=
+  match acceptCode cfg raises ok content fs.umask fs.destMode t with
+  | 9 => match stuckAt cfg raises A.init t 0 with
+    | some k => s!"9@{k}"
+    | none => "9"
+  | c => toString c
+
+/-- one half of the answer, and the file system the next save starts from -/
+def showHalf (cfg : Cfg) (raises ok : Bool) (content : Bytes) (fs : FS) (e : Nat) (tx : List (Obs × Option Ev)) : String × Option FS :=
+  let t := tx.map (·.1)
+  let acc := showAcc cfg raises ok content fs t
+  let nat := match natCheck (M.start fs e) tx 0 with
+    | some k => s!"bad@{k}"
+    | none => "ok"
+  match replay (M.start fs e) t with
+  | some m => (s!"acc={acc} exec=ok nat={nat} dest={showFile m.fs m.fs.dir.dest} part={showFile m.fs m.fs.dir.part}", some m.fs)
+  | none =>
+    let k := (replayStuck (M.start fs e) t 0).getD 0
+    (s!"acc={acc} exec=stuck@{k} nat={nat} dest=? part=?", none)
+
+def handleAcc (ws : List String) : String :=
+  match ws with
+  | [flags, perms, umask, dest, part, raises, content, ok1, t1, ok2, t2] =>
+    match flags.toList.map bit?, (if perms = "-" then some none else perms.toNat?.map some),
+          umask.toNat?, parseFile? dest, parseFile? part, raises.toList.map bit?,
+          bytesOfHex? content, ok1.toList.map bit?, parseTrace? t1, ok2.toList.map bit?, parseTrace? t2 with
+    | [some ow, some owp, some rm, some txt], some perms, some umask, some dest, some part,
+      [some raises], some content, [some ok1], some t1, [some ok2], some t2 =>
+      let cfg : Cfg := ⟨ow, owp, rm, txt, perms⟩
+      let (fs0, e) := mkFS dest part umask
+      let (h1, fs1) := showHalf cfg raises ok1 content fs0 e t1
+      match fs1 with
+      | some fs1 => s!"{h1} | {(showHalf cfg false ok2 content fs1 e t2).1}"
+      | none => s!"{h1} | -"
+    | _, _, _, _, _, _, _, _, _, _, _ => "bad-op"
+  | _ => "bad-op"
+
+def handle (line : String) : String :=
+  match words line with
+  | "REF" :: ws => handleRef ws
+  | ws => handleAcc ws
 
 end C05.Driver
